@@ -46,7 +46,8 @@ def _src(rng):
     sd, st = rng.choice(STARTS)
     return dict(kind=kind, nt=rng.choice([1, 2, 3, 4, 4, 6]), nl=rng.randint(1, 3), nr=rng.randint(1, 3), nc=rng.randint(1, 3),
                 nv=rng.randint(1, 3), sdate=sd, stime=st, tstep=rng.choice([10000, 10000, 3000, 240000, 20000]),
-                lv=sorted(rng.sample(range(0, 65), 4), reverse=True), withcf=rng.random() < 0.3,
+                # level edges decreasing upwards (sigma, eta, pressure) or increasing (heights, altitudes)
+                lv=sorted(rng.sample(range(0, 65), 4), reverse=rng.random() < 0.7), withcf=rng.random() < 0.3,
                 name16=rng.random() < 0.25)
 
 
